@@ -125,17 +125,29 @@ void SerialAssembleAction::onResume()
         curr_action_->resume();
 
     } else if (child_finish_func_) {
-        loop_.runNext(std::move(child_finish_func_));
+        child_finish_run_id_ = loop_.runNext(std::move(child_finish_func_));
+        child_finish_func_ = nullptr;
 
     } else {
         LogWarn("%d:%s[%s] can't resume", id(), type().c_str(), label().c_str());
     }
 }
 
+//! 暂存的以及恢复时已补发但尚未执行的finish事件，都属于上一次运行，不能留到下一次
+void SerialAssembleAction::dropChildFinishFunc()
+{
+    child_finish_func_ = nullptr;
+
+    if (child_finish_run_id_ != 0) {
+        loop_.cancel(child_finish_run_id_);
+        child_finish_run_id_ = 0;
+    }
+}
+
 void SerialAssembleAction::onStop()
 {
     stopCurrAction();
-    child_finish_func_ = nullptr;
+    dropChildFinishFunc();
 
     AssembleAction::onStop();
 }
@@ -144,14 +156,14 @@ void SerialAssembleAction::onFinished(bool is_succ, const Reason &why, const Tra
 {
     //! 有可能不是子动作自然结束引起的finish（如动作超时），这时正在执行的子动作要停掉，不能让它继续运行
     stopCurrAction();
-    child_finish_func_ = nullptr;
+    dropChildFinishFunc();
     AssembleAction::onFinished(is_succ, why, trace);
 }
 
 void SerialAssembleAction::onReset()
 {
     curr_action_ = nullptr;
-    child_finish_func_ = nullptr;
+    dropChildFinishFunc();
 
     AssembleAction::onReset();
 }
